@@ -219,6 +219,12 @@ class C18(Check):
                 if end is None or not comps:
                     continue
                 cnt["adaptive_updates"] = cnt.get("adaptive_updates", 0) + 1
+                af = case["config"]["estimation"]["adaptive_filter"]
+                want_cls = {"smm": "StaticMultipleModel", "gpb1": "GeneralizedPseudoBayesian1"}[af["name"]]
+                if (r["cls"], r["prune_threshold"], r["prune_percentage"]) != (want_cls, af["prune_threshold"], af["prune_percentage"]) or (af.get("mix_ratio") is not None and r["mix_ratio"] != af["mix_ratio"]):
+                    viol.append({"clause": "adaptive-filter-differs-from-its-configuration", "key": af["name"],
+                                 "detail": f"configured {af}; running {r['cls']} with prune threshold {r['prune_threshold']}, prune percentage {r['prune_percentage']}, mix ratio {r['mix_ratio']}"})
+                    break
                 where = f"step {r['step']} target {r['target']} {r['cls']} with {r['n']} models"
                 A = comps[0]
                 w = A["weights"]
